@@ -9,7 +9,7 @@ from .common import LEAN, REPO, write_if_changed
 sys.path.insert(0, str(Path(__file__).resolve().parent.parent))
 
 
-ALL = ("scopemap", "builtin", "envconfig", "checkapi")
+ALL = ("scopemap", "builtin", "envconfig", "checkapi", "skeletons")
 
 
 def regenerate(which=("scopemap",)) -> dict:
@@ -28,6 +28,9 @@ def regenerate(which=("scopemap",)) -> dict:
     if "checkapi" in which:
         from extract import checkapi
         write_if_changed(gen / "CheckApi.lean", checkapi.render(REPO))
+    if "skeletons" in which:
+        from extract import skeletons
+        write_if_changed(gen / "Skeletons.lean", skeletons.render(REPO))
     if "builtin" in which:
         from extract import builtin_checks
         write_if_changed(gen / "BuiltinChecks.lean", builtin_checks.render(REPO))
